@@ -191,6 +191,29 @@ def f_candidates(F, res):
             res.add([finding("S-TOPUP", key_t, w, "with a limit, take() can return without topping the candidates up although no test of the limit was passed: when the constraints are met by different UTxOs (empty intersection) the block gets no candidates at all")])
         else:
             res.add([ok("S-TOPUP", key_t, w, "every path that skips the top-up passes a comparison with the limit")])
+    # ... and the extras are counted after what is already picked has been taken out: the `take(n)` that bounds the top-up runs
+    # over an iterator that went through a set difference / a filter, not over the wider set as it is (elements of the
+    # intersection would use up the budget and candidates that satisfy the constraints are left out)
+    if topup:
+        du_t = mir.DefUse(f)
+        PASS = ("std::collections::HashSet::<T, S, A>::iter", "std::iter::IntoIterator::into_iter", "std::iter::Iterator::cloned", "std::iter::Iterator::copied",
+                "std::clone::Clone::clone", "std::convert::Into::into", "std::convert::From::from", "std::ops::Deref::deref", "std::iter::Iterator::flatten",
+                "std::option::Option::<T>::into_iter", "std::iter::Iterator::map")
+        raw = []
+        for bi, t in mir.calls(f):
+            if (t.get("callee") or "") != "std::iter::Iterator::take" or not t["args"]:
+                continue
+            for o in mir.provenance(f, du_t, t["args"][0], transparent_extra=PASS):
+                if (o.kind == "arg" and o.local == 1 and any(pr.lstrip(".") in (fields_set := set(fields)) and pr.lstrip(".") not in meet for pr in o.proj)) \
+                        or (o.kind == "call" and o.callee.startswith(NARROW) and o.term["args"] and any(
+                            x.kind == "arg" and x.local == 1 and any(pr.lstrip(".") in set(fields) and pr.lstrip(".") not in meet for pr in x.proj)
+                            for x in mir.provenance(f, du_t, o.term["args"][0], transparent_extra=PASS))):
+                    raw.append(t["line"])
+        key_d = f["path"] + "|the top-up is bounded after removing what is already picked"
+        if raw:
+            res.add([finding("S-TOPUP", key_d, where(f, raw[0]), "the `take(n)` that bounds the top-up runs over the wider set itself, not over what is left of it after removing the candidates already picked: refs of the intersection use up the window and UTxOs that meet the constraints are left out")])
+        else:
+            res.add([ok("S-TOPUP", key_d, w, "the bounded top-up draws from a difference / filtered iterator")])
     if bad:
         res.add([finding("F-CANDIDATES", key + "|reads the union", where(f, bad[0][0]), "when a limit is given, take() tops the candidates up from `%s`, which holds the *union* of the constraints: a UTxO that satisfies only one of them (e.g. the ref but not the address) becomes a candidate" % bad[0][1])])
     elif not meet_read:
